@@ -2,8 +2,8 @@ package symex
 
 import (
 	"go/token"
-	"sync"
 	"strings"
+	"sync"
 
 	"verif/engine/smt"
 
